@@ -16,6 +16,11 @@ import (
 )
 
 type memSummary struct {
+	// package-level error values the function can return (`return .., ErrX`,
+	// directly or through a callee): before any write was executed on the
+	// path / after one
+	sentClean map[string]bool
+	sentDirty map[string]bool
 	hasW    bool
 	hasM    bool // executed in line
 	commitM bool // registered with OnCommit
@@ -33,6 +38,7 @@ var mutatingNames = map[string]bool{
 
 type shapeState struct {
 	memSeen    bool
+	wSeen      bool // a database write was executed on this path
 	terminated bool
 }
 
@@ -55,7 +61,7 @@ func (a *analysis) summaryOf(fn *types.Func) *memSummary {
 	if s, ok := a.summaries[fn]; ok {
 		return s // (a cycle sees the partial summary: recursion adds nothing new)
 	}
-	s := &memSummary{busy: true}
+	s := &memSummary{busy: true, sentClean: map[string]bool{}, sentDirty: map[string]bool{}}
 	a.summaries[fn] = s
 	d := a.decls[fn]
 	if d == nil || d.Body == nil {
@@ -83,6 +89,7 @@ func (c *shapeCtx) pos(n ast.Node) string {
 
 func (c *shapeCtx) evW(n ast.Node, st *shapeState, what string) {
 	c.sum.hasW = true
+	st.wSeen = true
 	if st.memSeen && !c.sum.bad {
 		c.sum.bad = true
 		c.sum.detail = fmt.Sprintf("write (%s) at %s can follow an assignment to memory", what, c.pos(n))
@@ -229,9 +236,12 @@ func (c *shapeCtx) runClosure(lit *ast.FuncLit, st *shapeState, times int) {
 	}
 	c.depth++
 	for i := 0; i < times; i++ {
-		inner := c.block(lit.Body.List, shapeState{memSeen: st.memSeen})
+		inner := c.block(lit.Body.List, shapeState{memSeen: st.memSeen, wSeen: st.wSeen})
 		if inner.memSeen {
 			st.memSeen = true
+		}
+		if inner.wSeen {
+			st.wSeen = true
 		}
 	}
 	c.depth--
@@ -297,6 +307,19 @@ func (c *shapeCtx) call(x *ast.CallExpr, st *shapeState) {
 		c.evW(x, st, "walletdb."+fn.Name())
 	case fn != nil && fn.Pkg() == a.pkg && a.decls[fn] != nil:
 		sum := a.summaryOf(fn)
+		if c.sum.sentClean != nil {
+			// whatever the callee can return, this function may hand on
+			for n := range sum.sentDirty {
+				c.sum.sentDirty[n] = true
+			}
+			for n := range sum.sentClean {
+				if st.wSeen {
+					c.sum.sentDirty[n] = true
+				} else {
+					c.sum.sentClean[n] = true
+				}
+			}
+		}
 		if sum.bad && !c.sum.bad {
 			c.sum.bad = true
 			c.sum.detail = "in " + recvName(fn) + fn.Name() + ": " + sum.detail
@@ -353,6 +376,9 @@ func merge(outs ...shapeState) shapeState {
 		res.terminated = false
 		if o.memSeen {
 			res.memSeen = true
+		}
+		if o.wSeen {
+			res.wSeen = true
 		}
 	}
 	return res
@@ -433,6 +459,15 @@ func (c *shapeCtx) stmt(s ast.Stmt, st shapeState) shapeState {
 	case *ast.ReturnStmt:
 		for _, r := range x.Results {
 			c.expr(r, &st)
+		}
+		if len(x.Results) > 0 {
+			if name := c.a.sentinelName(x.Results[len(x.Results)-1]); name != "" && c.sum.sentClean != nil {
+				if st.wSeen {
+					c.sum.sentDirty[name] = true
+				} else {
+					c.sum.sentClean[name] = true
+				}
+			}
 		}
 		st.terminated = true
 	case *ast.DeferStmt:
@@ -537,6 +572,41 @@ func (c *shapeCtx) clauses(body *ast.BlockStmt, st shapeState) shapeState {
 		outs = append(outs, st)
 	}
 	return merge(outs...)
+}
+
+// sentinelName: e is a package-level variable of error type (of this or of
+// another package): the name under which it is tracked, else "".
+func (a *analysis) sentinelName(e ast.Expr) string {
+	switch x := ast.Unparen(e).(type) {
+	case *ast.Ident:
+		if v, ok := a.info.Uses[x].(*types.Var); ok && v.Pkg() == a.pkg && v.Parent() == a.pkg.Scope() {
+			return x.Name
+		}
+	case *ast.SelectorExpr:
+		if id, ok := x.X.(*ast.Ident); ok {
+			if _, isPkg := a.info.Uses[id].(*types.PkgName); isPkg {
+				return id.Name + "." + x.Sel.Name
+			}
+		}
+	}
+	return ""
+}
+
+// sentinelClean: can callee return the sentinel only on paths on which it has
+// not written anything yet?  (A comparison `err == Sentinel` that turns the
+// error into success is harmless exactly then: the operation has no effect to
+// lose.)  Decided on the same abstract execution as the memory shapes: every
+// `return .., Sentinel` of the callee and of the package functions it calls is
+// looked at together with "was a write executed before on this path".
+func (a *analysis) sentinelClean(callee *types.Func, name string) (bool, string) {
+	if callee == nil || callee.Pkg() != a.pkg || a.decls[callee] == nil {
+		return false, "the callee is not a function of the package"
+	}
+	sum := a.summaryOf(callee)
+	if sum.sentDirty[name] {
+		return false, recvName(callee) + callee.Name() + " can return " + name + " after it has written"
+	}
+	return true, ""
 }
 
 func (a *analysis) shapes() []shapeRow {
